@@ -4,6 +4,7 @@ import CosetProofs.Ties.Compare.Encrypt
 import CosetProofs.Ties.Compare.Mac
 import CosetProofs.Ties.Compare.Sign
 import CosetProofs.Ties.Compare.Util
+import CosetProofs.Ties.IanaTables
 namespace Coset.Props.C06
 
 /-! ### ties to the source text (regenerated on every run, compared in the kernel with the transcribed tree) -/
@@ -18,5 +19,10 @@ theorem tie_compare_util : Coset.Ties.compareCovered "util" Coset.Gen.decisionBu
 #print axioms tie_compare_mac
 #print axioms tie_compare_sign
 #print axioms tie_compare_util
+
+/-- the registry tables the streams of this property build values from (by name) are the IANA assignments. -/
+theorem tie_iana_tables : Coset.Ties.IanaTablesOk := Coset.Ties.iana_tables
+
+#print axioms tie_iana_tables
 
 end Coset.Props.C06
